@@ -56,9 +56,6 @@ def IsChain (c : Chain) : Prop :=
   c ≠ [] ∧ at' c 0 = 1 ∧ (0 : Int) ∉ c ∧ c.Nodup ∧
   ∀ k, 0 < k → k < c.length → ∃ i j, i < k ∧ j < k ∧ at' c i + at' c j = at' c k
 
-#eval program [1,2,3,5,4]
-#eval program [1,2,2]
-#eval (program [1,2,4,3,7]).toOption.map evaluate
 
 /-! ### ops: membership characterisation -/
 theorem mem_quadOps (c : Chain) (k i j : Nat) :
@@ -294,5 +291,4 @@ theorem program_evaluate (c : Chain) (p : List Op) (h : program c = .ok p) : eva
   rw [List.take_length] at this
   rw [this, hlen, List.take_of_length_le (by omega)]
 
-#print axioms program_evaluate
 end P
